@@ -386,7 +386,7 @@ def short(s, n=70):
     return "%s...%s (%d chars)" % (show(s[:30]), show(s[-30:]), len(s))
 
 
-def check_case(case, clsname, conc, route="setitem", stats=None, wsel=0, known=None):
+def check_case(case, clsname, conc, route="setitem", stats=None, wsel=0, known=None, nways=2):
     """replay one CASE line; returns (message or None, [drift notes]).  Expected values -- cls, blank,
     wt -- come from TLC; this function only drives the real class and compares.  `known` collects
     the divergences that carry the signature of the known deviation (judged by the caller)."""
@@ -446,7 +446,8 @@ def check_case(case, clsname, conc, route="setitem", stats=None, wsel=0, known=N
                 drift.append("%s: default-setting read-back (%s) %s, reader model %s" % (where, _formname(f), _rbshow(got), _rbshow(exp)))
     # ... and through the ways the producing class itself offers (constructor / iter_paragraphs,
     # str / bytes / list / StringIO / BytesIO, strict by keyword / positionally), rotating
-    nways = 3 if len(text or "") < 20000 else 1
+    if len(text or "") >= 20000:
+        nways = min(nways, 1)
     for way in pick_ways(wsel, nways):
         for ws_default in (False, True):
             if ws_default and case["blank"]:
@@ -502,13 +503,15 @@ def replay_chunk(payload):
                 for dname in sc.dims:
                     out["stress"][dname] = out["stress"].get(dname, 0) + 1
             for jn, (clsname, conc, route) in enumerate(jobs):
-                msg, drift = check_case(c, clsname, conc, route, stats, wsel=idx * 5 + jn, known=known)
+                # the three canonical Deb822 jobs share one turn of the class-specific ways
+                nw = 2 if (jn >= len(canon_pos) or jn == idx % len(canon_pos)) else 0
+                msg, drift = check_case(c, clsname, conc, route, stats, wsel=idx * 5 + jn, known=known, nways=nw)
                 out["n"] += 1
                 if drift and len(out["drift"]) < 3:
                     out["drift"].append(drift[0])
                 if msg:
                     if len(out["violations"]) < 3:
-                        out["violations"].append(({"kind": "case", "case": c, "cls": clsname, "wsel": idx * 5 + jn,
+                        out["violations"].append(({"kind": "case", "case": c, "cls": clsname, "wsel": idx * 5 + jn, "nways": nw,
                                                    "conc": conc.to_json(), "route": route}, msg))
                     break
         out["stats"] = {"%s/%s" % k: n for k, n in stats.items()}
@@ -1337,7 +1340,8 @@ def replay(ctx, case):
         conc = Conc.from_json(case["conc"])
         known = []
         msg, _ = check_case(case["case"], case["cls"], conc, case.get("route", "setitem"), wsel=case.get("wsel", 0),
-                            known=known if (case.get("known") and ctx.known_open(case["known"])) else None)
+                            known=known if (case.get("known") and ctx.known_open(case["known"])) else None,
+                            nways=case.get("nways", 2))
         return msg
     if case["kind"] == "walk":
         hc = HistConc.from_json(case["conc"])
